@@ -987,3 +987,47 @@ def c16(ctx):
     if bad:
         raise Undecided("the lexer specification disagrees with the generator about what literals %s denote" % bad[:5])
     ctx.replay("C16-literals", cases, FIELDS["C16"], exps=exps, reject_violation=True)
+
+
+# ------------------------------------------------------------------- C14
+FIELDS["C14"] = ["spans", "vars", "panic", "cpanic", "reject"]
+RULES["C14"] = ("637 regexes of the supported subset (atoms a b . [ab] [^a] [a-b1] \\\\d \\\\s \\\\D \\\\S; quantifiers * + ? {2} {1,2} "
+                "{2,} {0,2} greedy and lazy; plain, non-capturing and named groups, also quantified; alternations of single atoms; "
+                "^ $; numbered and named back-references; nested groups) x all strings over {a,b,1,space,newline} up to the "
+                "tier's length; expectation = the conventional backtracking semantics of spec/Regex.tla; non-trivial = at "
+                "least one expected match")
+
+
+@check("C14")
+def c14(ctx):
+    ctx.technique = ("conventional regex semantics and the documented translation as TLA+ definitions (spec/Regex.tla); TLC checks "
+                     "translation = conventional semantics on the scope and emits the expectation; `find all @/re/` replayed; the "
+                     "oracle itself is validated against Go's regexp on the back-reference-free part")
+    d = ctx.scratch.sub("rxgen")
+    out, st0 = vlib.run_tlc(d, "RegexScope", "CONSTANT OutFile = \"cases.ndjson\"\nCONSTANT Tier = \"%s\"\n" % ctx.tier, workers=1, timeout=300, heap="2g")
+    cp = os.path.join(d, "cases.ndjson")
+    if not os.path.exists(cp):
+        raise Undecided("RegexScope failed:\n" + vlib.tlc_error_excerpt(out))
+    with open(cp) as f:
+        cases = [json.loads(l) for l in f if l.strip()]
+    docs, st = run_sharded_machine(ctx, "EvalRegex", cases, ["TranslationAgrees", "Emit"])
+    if len(docs) != len(cases):
+        raise Undecided("EvalRegex emitted %d documents for %d cases" % (len(docs), len(cases)))
+    ctx.add_mc("EvalRegex", st, "TranslationAgrees: FindAll(ToPattern(re)) = RegexFindAll(re) (spans, numbers, group bindings) for every regex and text of the scope")
+    # oracle validation against Go's regexp (not a verdict)
+    rp = ctx.scratch.sub("rp_oracle")
+    with open(os.path.join(rp, "cases.ndjson"), "w") as f:
+        for c in cases:
+            f.write(json.dumps(c, separators=(",", ":")) + "\n")
+    with open(os.path.join(rp, "expect.ndjson"), "w") as f:
+        for e in docs:
+            f.write(e + "\n")
+    p = subprocess.run([ctx.get_harness(), "regexoracle", "-cases", os.path.join(rp, "cases.ndjson"), "-expect", os.path.join(rp, "expect.ndjson")],
+                       capture_output=True, text=True, timeout=900)
+    if p.returncode != 0:
+        raise Undecided("regexoracle failed: " + p.stderr[-1000:])
+    orc = json.loads(p.stdout.strip().splitlines()[-1])
+    ctx.diagnostics["oracle_vs_go_regexp"] = orc
+    if orc["disagreements"]:
+        raise Undecided("the regex oracle of spec/Regex.tla disagrees with Go's regexp: %s" % orc["examples"])
+    ctx.replay("C14-regex-literals", cases, FIELDS["C14"], exps=docs, reject_violation=True, want_ast=True)
